@@ -180,8 +180,9 @@ func valFn(tn string, f string) string { return "V." + tn + "." + f }
 
 func cellVar(t types.Type) string { return "Cell." + typeName(t) }
 func elemVar(t types.Type) string { return "Elem." + sortTag(t) }
+// maps of different Go types never alias: one domain/value variable per (key sort, element type)
 func mapDomVar(m *types.Map) string {
-	return "MapDom." + string(sortTagS(sortOf(m.Key())))
+	return "MapDom." + string(sortTagS(sortOf(m.Key()))) + "." + sortTag(m.Elem())
 }
 func mapValVar(m *types.Map) string {
 	return "MapVal." + string(sortTagS(sortOf(m.Key()))) + "." + sortTag(m.Elem())
